@@ -165,6 +165,26 @@ def run(chk, repo, tier):
     chk.ob('C12-d', 'D-flow', fcomp.key, 'every term of a composition is coefficient x zernike(mask, index, normalize, rho, theta)',
            (not other) if nterm else None, '; '.join(sorted(set(other))[:2]) or f'{nterm} accumulation(s)', fcomp.loc())
 
+    # ... and the sum starts from nothing: a term written outside the loop (piston as coeffs[0] * mask) by-passes `zernike`
+    starts, ns_ = [], 0
+    for p in returns(paths):
+        for lp in p.state.loops:
+            if lp['func'] != fcomp.key:
+                continue
+            accs = {e.target.single_atom()[1] for bs in lp['states'] for e in bs.events[lp['n_pre_events']:]
+                    if e.kind == 'write' and e.data.get('how') == 'augassign' and isinstance(e.target, Poly)
+                    and e.target.single_atom() is not None and e.target.single_atom()[0] == 'loop'}
+            for nm_, v_ in (lp.get('pre') or {}).items():
+                if not any(str(a_).startswith(nm_ + '@') for a_ in accs):
+                    continue
+                ns_ += 1
+                va_ = v_.single_atom() if isinstance(v_, Poly) else None
+                zero = (isinstance(v_, Poly) and v_.const_value() == 0) or \
+                    (va_ is not None and is_app(va_, ('zeros', 'zeros_like', 'numpy.zeros', 'numpy.zeros_like')))
+                if not zero:
+                    starts.append(f'`{nm_}` starts as {fmt(v_)[:70]}')
+    chk.ob('C12-d', 'D-flow', fcomp.key, 'the composition is accumulated from zero (no term is formed outside the loop over the coefficients)',
+           (not starts) if ns_ else None, '; '.join(sorted(set(starts))[:2]), fcomp.loc())
     fbas = repo.func('zernike.zernike_basis')
     _, paths, _ = analyse(repo, fbas)
     ok, det = False, 'no store basis[i] = zernike(mask, modes[i], ...) found'
